@@ -243,7 +243,12 @@ impl Runner {
             Out::Panic => "panic".into(),
         };
         let ans = answer(&res, dev);
-        self.rep.case(&req, !matches!(out, Out::Err(_) | Out::Panic));
+        // distinct non-trivial cases: hashed by (description, register bytes, op, argument) -- not by
+        // the random pad bytes around the register; min/max touch nothing and do not count
+        let reg_part = if s.len >= 0 && before.img.len() >= 2 * PAD + s.len as usize { hex(&before.img[PAD..PAD + s.len as usize]) } else { "-".into() };
+        let canon = format!("{} {} {} {} {} {} {} {opname} {arg} {}", s.len, s.be, s.signed, s.bit_form, s.lsb, s.msb, s.group.is_some() && !s.shared_masked,
+            if matches!(op, Op::Min | Op::Max) { "-".to_string() } else { reg_part });
+        self.rep.case(&canon, !matches!(out, Out::Err(_) | Out::Panic) && !matches!(op, Op::Min | Op::Max));
         self.rep.count(&format!("op/{opname}"));
         self.rep.count(&format!("src/{src}"));
         self.rep.count(&format!("out/{}", match &out { Out::Err(e) => format!("err-{e}"), Out::Panic => "panic".into(), _ => "ok".into() }));
@@ -418,6 +423,8 @@ struct CField {
     msb: u64,
     bit_form: bool,
     signed: bool,
+    /// per-field caching mode: "" (inherit / default), "WriteThrough", "WriteAround", "NoCache"
+    cachable: String,
 }
 
 #[derive(Clone, Debug)]
@@ -427,7 +434,7 @@ struct CGroup {
     addr: i64,
     /// StructReg entries (true) or separate MaskedIntReg nodes sharing the address (false)
     struct_form: bool,
-    /// "" (default = WriteThrough), "WriteThrough" or "WriteAround"
+    /// caching mode of the StructReg element itself: "" (default = WriteThrough), "WriteThrough", "WriteAround", "NoCache"
     cachable: String,
     fields: Vec<CField>,
 }
@@ -436,6 +443,13 @@ struct CGroup {
 enum COp {
     Read(usize),
     Write(usize, i64),
+    /// raw `IRegister::write` of the whole shared word through field j's node
+    RawWrite(usize, Vec<u8>),
+    /// set_value while the device answers its next WRITE with a one-shot fault: refused (nothing
+    /// applied), applied but reported failed (lost acknowledge), or partially applied
+    FaultWrite(usize, i64, WriteFault),
+    /// value() / the old-word read of a later write while the device fails its next READ once
+    FaultRead(usize, ReadFault),
 }
 
 impl CGroup {
@@ -444,23 +458,29 @@ impl CGroup {
         let (l, m) = if self.be { (bits - 1 - f.lsb, bits - 1 - f.msb) } else { (f.lsb, f.msb) };
         (l as u32, m as u32)
     }
+    /// effective caching mode of field j
+    fn mode(&self, j: usize) -> &str {
+        let f = &self.fields[j].cachable;
+        let m = if !f.is_empty() { f.as_str() } else if self.struct_form { self.cachable.as_str() } else { "" };
+        if m.is_empty() { "WriteThrough" } else { m }
+    }
     fn xml(&self) -> String {
         let e = if self.be { "BigEndian" } else { "LittleEndian" };
-        let cach = if self.cachable.is_empty() { String::new() } else { format!("<Cachable>{}</Cachable>", self.cachable) };
+        let cach = |c: &str| if c.is_empty() { String::new() } else { format!("<Cachable>{c}</Cachable>") };
         let mask = |f: &CField| if f.bit_form { format!("<Bit>{}</Bit>", f.lsb) } else { format!("<LSB>{}</LSB><MSB>{}</MSB>", f.lsb, f.msb) };
         let inval = |j: usize| -> String { (0..self.fields.len()).filter(|k| *k != j).map(|k| format!("<pInvalidator>F{k}</pInvalidator>")).collect() };
         let mut x = String::from(XML_HEAD);
         if self.struct_form {
-            x += &format!("<StructReg Comment=\"shared\"><Address>{}</Address><Length>{}</Length><AccessMode>RW</AccessMode><pPort>Device</pPort>{cach}<Endianess>{e}</Endianess>\n", self.addr, self.len);
+            x += &format!("<StructReg Comment=\"shared\"><Address>{}</Address><Length>{}</Length><AccessMode>RW</AccessMode><pPort>Device</pPort>{}<Endianess>{e}</Endianess>\n", self.addr, self.len, cach(&self.cachable));
             for (j, f) in self.fields.iter().enumerate() {
-                x += &format!("  <StructEntry Name=\"F{j}\">{}<AccessMode>RW</AccessMode>{}<Sign>{}</Sign></StructEntry>\n",
-                    inval(j), mask(f), if f.signed { "Signed" } else { "Unsigned" });
+                x += &format!("  <StructEntry Name=\"F{j}\">{}<AccessMode>RW</AccessMode>{}{}<Sign>{}</Sign></StructEntry>\n",
+                    inval(j), cach(&f.cachable), mask(f), if f.signed { "Signed" } else { "Unsigned" });
             }
             x += "</StructReg>\n";
         } else {
             for (j, f) in self.fields.iter().enumerate() {
-                x += &format!("<MaskedIntReg Name=\"F{j}\"><Address>{}</Address><Length>{}</Length><AccessMode>RW</AccessMode><pPort>Device</pPort>{cach}{}{}<Sign>{}</Sign><Endianess>{e}</Endianess></MaskedIntReg>\n",
-                    self.addr, self.len, inval(j), mask(f), if f.signed { "Signed" } else { "Unsigned" });
+                x += &format!("<MaskedIntReg Name=\"F{j}\"><Address>{}</Address><Length>{}</Length><AccessMode>RW</AccessMode><pPort>Device</pPort>{}{}{}<Sign>{}</Sign><Endianess>{e}</Endianess></MaskedIntReg>\n",
+                    self.addr, self.len, cach(&f.cachable), inval(j), mask(f), if f.signed { "Signed" } else { "Unsigned" });
             }
         }
         x += XML_TAIL;
@@ -469,9 +489,15 @@ impl CGroup {
     fn to_json(&self, reg0: &[u8], ops: &[COp]) -> Value {
         json!({"cached": {
             "len": self.len, "be": self.be, "addr": self.addr.to_string(), "struct_form": self.struct_form, "cachable": self.cachable,
-            "fields": self.fields.iter().map(|f| json!({"lsb": f.lsb, "msb": f.msb, "bit_form": f.bit_form, "signed": f.signed})).collect::<Vec<_>>(),
+            "fields": self.fields.iter().map(|f| json!({"lsb": f.lsb, "msb": f.msb, "bit_form": f.bit_form, "signed": f.signed, "cachable": f.cachable})).collect::<Vec<_>>(),
             "reg0": hex(reg0),
-            "ops": ops.iter().map(|o| match o { COp::Read(j) => json!(["r", j, "0"]), COp::Write(j, v) => json!(["w", j, v.to_string()]) }).collect::<Vec<_>>(),
+            "ops": ops.iter().map(|o| match o {
+                COp::Read(j) => json!(["r", j, "0"]),
+                COp::Write(j, v) => json!(["w", j, v.to_string()]),
+                COp::RawWrite(j, b) => json!(["raw", j, hex(b)]),
+                COp::FaultWrite(j, v, f) => json!([match f { WriteFault::Refuse => "refused-w".to_string(), WriteFault::LostAck => "lostack-w".to_string(), WriteFault::Partial(k) => format!("partial-w:{k}") }, j, v.to_string()]),
+                COp::FaultRead(j, f) => json!([match f { ReadFault::Refuse => "refused-r", ReadFault::FilledThenFail => "filled-fail-r", ReadFault::GarbageThenFail => "garbage-fail-r" }, j, "0"]),
+            }).collect::<Vec<_>>(),
         }})
     }
     fn from_json(v: &Value) -> (CGroup, Vec<u8>, Vec<COp>) {
@@ -484,11 +510,23 @@ impl CGroup {
             cachable: c["cachable"].as_str().unwrap().to_string(),
             fields: c["fields"].as_array().unwrap().iter().map(|f| CField {
                 lsb: f["lsb"].as_u64().unwrap(), msb: f["msb"].as_u64().unwrap(),
-                bit_form: f["bit_form"].as_bool().unwrap(), signed: f["signed"].as_bool().unwrap() }).collect(),
+                bit_form: f["bit_form"].as_bool().unwrap(), signed: f["signed"].as_bool().unwrap(),
+                cachable: f["cachable"].as_str().unwrap_or("").to_string() }).collect(),
         };
         let ops = c["ops"].as_array().unwrap().iter().map(|o| {
             let j = o[1].as_u64().unwrap() as usize;
-            if o[0] == "r" { COp::Read(j) } else { COp::Write(j, o[2].as_str().unwrap().parse().unwrap()) }
+            let a = o[2].as_str().unwrap();
+            match o[0].as_str().unwrap() {
+                "r" => COp::Read(j),
+                "raw" => COp::RawWrite(j, unhex(a)),
+                "refused-w" => COp::FaultWrite(j, a.parse().unwrap(), WriteFault::Refuse),
+                "lostack-w" => COp::FaultWrite(j, a.parse().unwrap(), WriteFault::LostAck),
+                "refused-r" => COp::FaultRead(j, ReadFault::Refuse),
+                "filled-fail-r" => COp::FaultRead(j, ReadFault::FilledThenFail),
+                "garbage-fail-r" => COp::FaultRead(j, ReadFault::GarbageThenFail),
+                t if t.starts_with("partial-w:") => COp::FaultWrite(j, a.parse().unwrap(), WriteFault::Partial(t["partial-w:".len()..].parse().unwrap())),
+                _ => COp::Write(j, a.parse().unwrap()),
+            }
         }).collect();
         (g, unhex(c["reg0"].as_str().unwrap()), ops)
     }
@@ -503,57 +541,97 @@ fn run_cached_group(rep: &mut Report, g: &CGroup, reg0: &[u8], ops: &[COp], src:
     img.extend_from_slice(reg0);
     img.extend(vec![0x22u8; PAD]);
     let mut dev = RecDevice::new(g.addr - PAD as i64, img.clone(), vec![]);
-    let initial = word_of(reg0, g.be);
-    let mut last: Vec<Option<i64>> = vec![None; g.fields.len()];
+    // the word the device must hold: initial content, merged by every accepted write, replaced by raw writes
+    let mut model: u128 = word_of(reg0, g.be);
     let form = if g.struct_form { "struct-entries" } else { "masked-sharing-address" };
-    let sig = |kind: &str, f: &CField| {
+    let mixed = g.fields.iter().any(|f| !f.cachable.is_empty());
+    let sig = |kind: &str, j: usize| {
+        let f = &g.fields[j];
         let (l, m) = g.norm(f);
-        json!({"kind": kind, "cached": true, "form": form, "cachable": g.cachable, "len": g.len, "be": g.be, "signed": f.signed, "width": m - l + 1})
+        json!({"kind": kind, "cached": true, "form": form, "cachable": g.mode(j), "mixed_modes": mixed, "len": g.len, "be": g.be, "signed": f.signed, "width": m - l + 1})
     };
     for (step, op) in ops.iter().enumerate() {
-        let (j, write) = match op { COp::Read(j) => (*j, None), COp::Write(j, v) => (*j, Some(*v)) };
+        let j = match op { COp::Read(j) | COp::Write(j, _) | COp::RawWrite(j, _) | COp::FaultWrite(j, _, _) | COp::FaultRead(j, _) => *j };
         let f = &g.fields[j];
         let (l, m) = g.norm(f);
         let (emin, emax) = exp_range(m - l + 1, f.signed);
         let nid = ids[j];
+        dev.log.clear();
         let before_writes = dev.writes();
         let reg_before = dev.img[PAD..PAD + g.len].to_vec();
+        let refusing = matches!(op, COp::FaultWrite(..) | COp::FaultRead(..));
+        match op {
+            COp::FaultWrite(_, _, f) => dev.next_write_fault = Some(*f),
+            COp::FaultRead(_, f) => dev.next_read_fault = Some(*f),
+            _ => {}
+        }
         let out = {
             let (store, cx, dev) = (&store, &mut cx, &mut dev);
             match catch(|| -> Result<Out, cameleon_genapi::GenApiError> {
-                let node = nid.expect_iinteger_kind(store)?;
-                Ok(match write {
-                    None => Out::Int(node.value(dev, store, cx)?),
-                    Some(v) => { node.set_value(v, dev, store, cx)?; Out::Unit }
+                Ok(match op {
+                    COp::Read(_) | COp::FaultRead(..) => Out::Int(nid.expect_iinteger_kind(store)?.value(dev, store, cx)?),
+                    COp::Write(_, v) | COp::FaultWrite(_, v, _) => { nid.expect_iinteger_kind(store)?.set_value(*v, dev, store, cx)?; Out::Unit }
+                    COp::RawWrite(_, b) => { nid.expect_iregister_kind(store)?.write(b, dev, store, cx)?; Out::Unit }
                 })
             }) { Err(()) => Out::Panic, Ok(Err(e)) => Out::Err(err_name(&e)), Ok(Ok(o)) => o }
         };
-        let canon = format!("cached {form} {} {} {} {:?} step{step} {:?} {}", g.len, g.be, g.cachable, g.fields, op, hex(&reg_before));
-        rep.case(&canon, !matches!(out, Out::Err(_) | Out::Panic));
-        rep.count(&format!("cached/{form}/{}", if write.is_some() { "set" } else { "value" }));
-        rep.count(&format!("cached/cachable-{}", if g.cachable.is_empty() { "default" } else { &g.cachable }));
-        let expected = |jj: usize, last: &Vec<Option<i64>>| -> i64 {
+        let fault_fired = (matches!(op, COp::FaultWrite(..)) && dev.next_write_fault.take().is_none()) || (matches!(op, COp::FaultRead(..)) && dev.next_read_fault.take().is_none());
+        dev.next_write_fault = None;
+        dev.next_read_fault = None;
+        let canon = format!("cached {form} {} {} {} {:?} {:?} {}", g.len, g.be, g.cachable, g.fields, op, hex(&reg_before));
+        rep.case(&canon, !refusing && !matches!(out, Out::Err(_) | Out::Panic));
+        rep.count(&format!("cached/{form}/{}", match op { COp::Read(_) => "value", COp::Write(..) => "set", COp::RawWrite(..) => "raw-write-of-shared-word", COp::FaultWrite(_, _, WriteFault::Refuse) => "set/write-refused", COp::FaultWrite(_, _, WriteFault::LostAck) => "set/write-applied-but-reported-failed", COp::FaultWrite(..) => "set/write-partially-applied", COp::FaultRead(..) => "value/one-shot-read-fault" }));
+        rep.count(&format!("cached/field-mode-{}", g.mode(j)));
+        if mixed {
+            rep.count("cached/group-with-mixed-modes");
+        }
+        let expected = |jj: usize, model: u128| -> i64 {
             let ff = &g.fields[jj];
             let (lo, mo) = g.norm(ff);
-            last[jj].unwrap_or_else(|| exp_value(initial, lo, mo - lo + 1, ff.signed))
+            exp_value(model, lo, mo - lo + 1, ff.signed)
         };
         let mut bad: Option<(&str, String)> = None;
         if out == Out::Panic {
             bad = Some(("panic", format!("step {step} {:?} panicked", op)));
         } else {
-            match write {
-                None => {
-                    let e = expected(j, &last);
+            match op {
+                COp::Read(_) => {
+                    let e = expected(j, model);
                     if out != Out::Int(e) {
                         bad = Some(("sibling-disturbed", format!("step {step}: value() of field {l}..{m} = {:?}, expected {e} (caching on)", out)));
+                    } else if g.mode(j) == "NoCache" && dev.log != vec![Access { write: false, addr: g.addr, len: g.len, bytes: reg_before.clone() }] {
+                        bad = Some(("footprint", format!("step {step}: value() of a NoCache field must be one device read: {}", dev.log_str())));
                     }
                 }
-                Some(v) => {
-                    if v >= emin && v <= emax {
+                COp::FaultRead(..) => {
+                    // either the device error, or served from the cache (then no access happened and it must be right)
+                    if let Out::Int(x) = out {
+                        if fault_fired {
+                            bad = Some(("fault-swallowed", format!("step {step}: the device failed the read but value() = {x}")));
+                        } else if g.mode(j) == "NoCache" {
+                            bad = Some(("ok-without-device-access", format!("step {step}: NoCache field read {x} without a device read")));
+                        } else if x != expected(j, model) {
+                            bad = Some(("sibling-disturbed", format!("step {step}: cached value() of field {l}..{m} = {x}, expected {}", expected(j, model))));
+                        }
+                    } else if !matches!(out, Out::Err("Device")) {
+                        bad = Some(("not-refused", format!("step {step}: value() on a failing read = {:?}", out)));
+                    }
+                    if bad.is_none() && !dev.log.is_empty() {
+                        bad = Some(("footprint", format!("step {step}: access logged although the read failed: {}", dev.log_str())));
+                    }
+                }
+                COp::Write(_, v) => {
+                    if *v >= emin && *v <= emax {
                         if out != Out::Unit {
                             bad = Some(("in-range-refused", format!("step {step}: set_value({v}) = {:?}", out)));
                         } else {
-                            last[j] = Some(v);
+                            let fmask = ((1u128 << (m - l + 1)) - 1) << l;
+                            model = (model & !fmask) | (((*v as i128 as u128) << l) & fmask);
+                            // exactly one device write of the whole register (the read may come from the cache)
+                            let w: Vec<&Access> = dev.log.iter().filter(|a| a.write).collect();
+                            if w.len() != 1 || w[0].addr != g.addr || w[0].len != g.len {
+                                bad = Some(("footprint", format!("step {step}: accepted set_value({v}) must be exactly one device write of the register: {}", dev.log_str())));
+                            }
                         }
                     } else if !matches!(out, Out::Err("InvalidData")) {
                         bad = Some(("out-of-range-accepted", format!("step {step}: set_value({v}) = {:?}, range [{emin},{emax}]", out)));
@@ -561,30 +639,54 @@ fn run_cached_group(rep: &mut Report, g: &CGroup, reg0: &[u8], ops: &[COp], src:
                         bad = Some(("write-on-refusal", format!("step {step}: refused set_value({v}) wrote to the device")));
                     }
                 }
+                COp::FaultWrite(_, v, fault) => {
+                    if *v >= emin && *v <= emax {
+                        if !matches!(out, Out::Err("Device")) {
+                            bad = Some(("not-refused", format!("step {step}: set_value({v}) with a failing device write = {:?}", out)));
+                        } else {
+                            // the model applies what the device applied: nothing / the merged word / its first k bytes
+                            let fmask = ((1u128 << (m - l + 1)) - 1) << l;
+                            let merged = (model & !fmask) | (((*v as i128 as u128) << l) & fmask);
+                            let k = match fault { WriteFault::Refuse => 0, WriteFault::LostAck => g.len, WriteFault::Partial(k) => (*k).min(g.len) };
+                            let new_bytes = bytes_of(merged & ((1u128 << (8 * g.len)) - 1), g.len, g.be);
+                            let old_bytes = bytes_of(model & ((1u128 << (8 * g.len)) - 1), g.len, g.be);
+                            let mut now = old_bytes.clone();
+                            now[..k].copy_from_slice(&new_bytes[..k]);
+                            model = word_of(&now, g.be);
+                            // from here on the own and the sibling caches must be treated as invalid: checked by
+                            // the device-word comparison after every later step
+                        }
+                    } else if !matches!(out, Out::Err("InvalidData")) {
+                        bad = Some(("out-of-range-accepted", format!("step {step}: set_value({v}) = {:?}, range [{emin},{emax}]", out)));
+                    } else if fault_fired || dev.writes() != before_writes || dev.img[PAD..PAD + g.len] != reg_before[..] {
+                        bad = Some(("write-on-refusal", format!("step {step}: refused set_value({v}) reached the device: {}", dev.log_str())));
+                    }
+                }
+                COp::RawWrite(_, b) => {
+                    if out != Out::Unit || dev.log != vec![Access { write: true, addr: g.addr, len: g.len, bytes: b.clone() }] {
+                        bad = Some(("raw-write", format!("step {step}: raw write of the shared word = {:?}, log {}", out, dev.log_str())));
+                    } else {
+                        model = word_of(b, g.be);
+                    }
+                }
             }
         }
         if bad.is_none() {
-            // the DEVICE word (uncached view): every field holds its expected value
+            // the DEVICE word (uncached view) is exactly the expected word
             let cur = word_of(&dev.img[PAD..PAD + g.len], g.be);
-            for jj in 0..g.fields.len() {
-                let ff = &g.fields[jj];
-                let (lo, mo) = g.norm(ff);
-                let on_dev = exp_value(cur, lo, mo - lo + 1, ff.signed);
-                let e = expected(jj, &last);
-                if on_dev != e {
-                    bad = Some(("sibling-disturbed", format!("step {step} {:?}: on the device field {lo}..{mo} holds {on_dev}, expected {e} (a sibling's read-modify-write used a stale word?)", op)));
-                    break;
-                }
-            }
-            let mut written_mask: u128 = 0;
-            for jj in 0..g.fields.len() {
-                if last[jj].is_some() {
+            if cur != model {
+                let mut kind = "history-bits-outside-written-fields-changed";
+                let mut what = format!("step {step} {:?}: the device word is {cur:x}, expected {model:x} (bits outside every field differ)", op);
+                for jj in 0..g.fields.len() {
                     let (lo, mo) = g.norm(&g.fields[jj]);
-                    written_mask |= ((1u128 << (mo - lo + 1)) - 1) << lo;
+                    let (on_dev, e) = (expected(jj, cur), expected(jj, model));
+                    if on_dev != e {
+                        kind = "sibling-disturbed";
+                        what = format!("step {step} {:?}: on the device field {lo}..{mo} holds {on_dev}, expected {e} (a sibling's read-modify-write used a stale word?)", op);
+                        break;
+                    }
                 }
-            }
-            if bad.is_none() && (cur ^ initial) & !written_mask != 0 {
-                bad = Some(("history-bits-outside-written-fields-changed", format!("step {step}: register bits outside all written fields differ from the initial content")));
+                bad = Some((kind, what));
             }
             if bad.is_none() && (dev.img[..PAD] != img[..PAD] || dev.img[PAD + g.len..] != img[PAD + g.len..] || !dev.outside.is_empty()) {
                 bad = Some(("frame", format!("step {step}: bytes outside the register changed")));
@@ -592,7 +694,7 @@ fn run_cached_group(rep: &mut Report, g: &CGroup, reg0: &[u8], ops: &[COp], src:
         }
         if let Some((kind, what)) = bad {
             rep.count(&format!("viol/cached/{kind}"));
-            rep.violation(sig(kind, f), &what, g.to_json(reg0, &ops[..=step]));
+            rep.violation(sig(kind, j), &what, g.to_json(reg0, &ops[..=step]));
             let _ = src;
             return false;
         }
@@ -602,35 +704,61 @@ fn run_cached_group(rep: &mut Report, g: &CGroup, reg0: &[u8], ops: &[COp], src:
 
 fn cached_sibling_pass(rep: &mut Report, rng: &mut Rng, thorough: bool) {
     let addrs: [i64; 4] = [0x200, 6, 0x7fff_ffff_ffff_f000, -32];
+    let modes = ["", "WriteThrough", "WriteAround", "NoCache"];
     let n_groups = if thorough { 1500 } else { 300 };
     for gi in 0..n_groups {
         let len = *rng.pick(&[1u64, 2, 4, 8]);
         let be = rng.bool();
-        let fields: Vec<CField> = gen_partition(rng, len, be).into_iter().map(|(lsb, msb, bit_form, signed)| CField { lsb, msb, bit_form, signed }).collect();
+        // half of the groups draw the caching mode PER FIELD (incl. NoCache siblings), the others share one mode
+        let per_field = gi % 2 == 1;
+        let fields: Vec<CField> = gen_partition(rng, len, be).into_iter().map(|(lsb, msb, bit_form, signed)| CField {
+            lsb, msb, bit_form, signed, cachable: if per_field { modes[rng.below(4) as usize].to_string() } else { String::new() } }).collect();
         let g = CGroup {
-            len: len as usize, be, addr: addrs[gi % addrs.len()], struct_form: gi % 2 == 0,
-            cachable: ["", "WriteThrough", "", "WriteAround"][gi % 4].to_string(), fields,
+            len: len as usize, be, addr: addrs[gi % addrs.len()], struct_form: (gi / 2) % 2 == 0,
+            cachable: if per_field && rng.bool() { String::new() } else { modes[(gi / 4) % 4].to_string() }, fields,
         };
+        // shared-mode groups of separate MaskedIntReg nodes: put the mode on every node
+        let g = if !g.struct_form && !per_field {
+            let c = g.cachable.clone();
+            CGroup { fields: g.fields.iter().map(|f| CField { cachable: c.clone(), ..f.clone() }).collect(), ..g }
+        } else { g };
         let reg0 = if gi % 3 == 0 { vec![0xff; g.len] } else { rng.bytes(g.len) };
         let steps = if thorough { 60 } else { 30 };
         let mut ops = vec![];
         for _ in 0..steps {
             let j = rng.below(g.fields.len() as u64) as usize;
-            if rng.chance(1, 3) {
-                ops.push(COp::Read(j));
-            } else {
-                let (l, m) = g.norm(&g.fields[j]);
-                let (emin, emax) = exp_range(m - l + 1, g.fields[j].signed);
-                let v = match rng.below(7) {
-                    0 => emin,
-                    1 => emax,
-                    2 => emax.wrapping_add(1),
-                    _ => {
-                        let span = (emax as i128 - emin as i128 + 1) as u128;
-                        (emin as i128 + (rng.next_u64() as u128 % span) as i128) as i64
+            let (l, m) = g.norm(&g.fields[j]);
+            let (emin, emax) = exp_range(m - l + 1, g.fields[j].signed);
+            let mut val = |rng: &mut Rng| match rng.below(7) {
+                0 => emin,
+                1 => emax,
+                2 => emax.wrapping_add(1),
+                _ => {
+                    let span = (emax as i128 - emin as i128 + 1) as u128;
+                    (emin as i128 + (rng.next_u64() as u128 % span) as i128) as i64
+                }
+            };
+            match rng.below(20) {
+                0..=5 => ops.push(COp::Read(j)),
+                6 => ops.push(COp::RawWrite(j, rng.bytes(g.len))),
+                7 | 9 => {
+                    let v = val(rng);
+                    let f = match rng.below(4) { 0 => WriteFault::Refuse, 1 | 2 => WriteFault::LostAck, _ => WriteFault::Partial(rng.below(g.len as u64 + 1) as usize) };
+                    // warm the caches first (every field read once), then the faulty write, then the siblings
+                    if rng.bool() {
+                        for jj in 0..g.fields.len() { ops.push(COp::Read(jj)); }
                     }
-                };
-                ops.push(COp::Write(j, v));
+                    ops.push(COp::FaultWrite(j, v, f));
+                    let sib = rng.below(g.fields.len() as u64) as usize;
+                    let (ls, ms) = g.norm(&g.fields[sib]);
+                    let (smin, smax) = exp_range(ms - ls + 1, g.fields[sib].signed);
+                    ops.push(COp::Write(sib, if rng.bool() { smin } else { smax }));
+                }
+                8 => {
+                    ops.push(COp::FaultRead(j, *rng.pick(&[ReadFault::Refuse, ReadFault::FilledThenFail, ReadFault::GarbageThenFail])));
+                    ops.push(COp::Read(j));
+                }
+                _ => { let v = val(rng); ops.push(COp::Write(j, v)) }
             }
         }
         run_cached_group(rep, &g, &reg0, &ops, "cached-siblings");
@@ -639,7 +767,7 @@ fn cached_sibling_pass(rep: &mut Report, rng: &mut Rng, thorough: bool) {
     for struct_form in [true, false] {
         for be in [false, true] {
             let raw = |l: u64, m: u64| if be { (15 - l, 15 - m) } else { (l, m) };
-            let fields = [(0u64, 3u64), (4, 11), (12, 15)].iter().map(|&(l, m)| { let (lsb, msb) = raw(l, m); CField { lsb, msb, bit_form: false, signed: false } }).collect();
+            let fields = [(0u64, 3u64), (4, 11), (12, 15)].iter().map(|&(l, m)| { let (lsb, msb) = raw(l, m); CField { lsb, msb, bit_form: false, signed: false, cachable: String::new() } }).collect();
             let g = CGroup { len: 2, be, addr: 0x200, struct_form, cachable: String::new(), fields };
             let ops = vec![COp::Read(0), COp::Write(1, 0x5a), COp::Write(0, 3), COp::Read(1), COp::Write(2, 9), COp::Write(1, 1), COp::Read(0), COp::Read(2), COp::Write(0, 16), COp::Read(1)];
             run_cached_group(rep, &g, &[0xc3, 0xa5], &ops, "cached-siblings-fixed");
@@ -653,7 +781,7 @@ fn main() {
     let thorough = args.thorough();
     let rep = Report::new(
         "C02",
-        "real MaskedIntReg nodes / StructReg entries parsed from generated XML for every (length in {1,2,4,8}, lsb, msb within the register) x byte order x sign, single-Bit form, malformed descriptions; min/max on every node; exhaustive in-range values (+ out-of-range neighbours) SUBSAMPLED BY NODE: quick = every value for widths <= 4 on all nodes, widths <= 8 on 1/8 of the nodes, widths <= 16 on 1/512 of the nodes; thorough = widths <= 10 on all nodes, widths <= 16 on 1/4 of the nodes; all other (node, width) pairs get boundary + random values (the universal claim over values is carried by the theorems); boundary/random prior register contents; set_value followed by value() on the same device; sibling write histories (uncached, compared with the model) on shared registers realised as StructReg entries AND as separate MaskedIntReg nodes sharing an address; second pass with CACHING ON (default cache store, default/WriteThrough/WriteAround, every field naming its siblings as pInvalidator, both realisations) under implementation-only oracles (every field reads its last accepted value, the device word holds every field's expected value, bits outside written fields and bytes outside the register unchanged); a case is non-trivial when the call succeeds; distinct by full request line",
+        "real MaskedIntReg nodes / StructReg entries parsed from generated XML for every (length in {1,2,4,8}, lsb, msb within the register) x byte order x sign, single-Bit form, malformed descriptions; min/max on every node; exhaustive in-range values (+ out-of-range neighbours) SUBSAMPLED BY NODE: quick = every value for widths <= 4 on all nodes, widths <= 8 on 1/8 of the nodes, widths <= 16 on 1/512 of the nodes; thorough = widths <= 10 on all nodes, widths <= 16 on 1/4 of the nodes; all other (node, width) pairs get boundary + random values (the universal claim over values is carried by the theorems); boundary/random prior register contents; set_value followed by value() on the same device; sibling write histories (uncached, compared with the model) on shared registers realised as StructReg entries AND as separate MaskedIntReg nodes sharing an address; second pass with CACHING ON (default cache store, default/WriteThrough/WriteAround, every field naming its siblings as pInvalidator, both realisations) under implementation-only oracles (every field reads its last accepted value, the device word holds every field's expected value, bits outside written fields and bytes outside the register unchanged); a case is non-trivial when the call succeeds (min/max excluded); distinct by (description, register bytes, op, argument), not by the pad bytes or the address; cached pass: per-field Cachable incl. NoCache siblings in half of the groups, raw IRegister::write of the shared word, device faults on warm caches (write refused / applied but reported failed / partially applied, one-shot read faults) followed by sibling writes and reads",
     );
 
     // ----- replay / corpus -----
